@@ -817,7 +817,8 @@ def rule_exprflow(chk, prog, tier):
             def funcload(i2, a, e):
                 rv = val('ld%d' % len(i2.events)); i2.event('load', name_of_type(u, a[1]), a[2].f[('addr',)], rv); return rv
             def funcstore(i2, a, e):
-                i2.event('store', name_of_type(u, a[1]), a[3].f[('addr',)], a[4]); return a[4]
+                # what funcstore hands back is the value as it sits in the object (for a bit-field: truncated to the width): a different value from the one passed in
+                rv = val('st%d' % len(i2.events)); i2.event('store', name_of_type(u, a[1]), a[3].f[('addr',)], a[4], rv); return rv
             def convert(i2, a, e):
                 rv = val('cv%d' % len(i2.events)); i2.event('convert', name_of_type(u, a[1]), name_of_type(u, a[2]), a[3], rv); return rv
             M = backend_models(prog)
@@ -853,8 +854,8 @@ def rule_exprflow(chk, prog, tier):
                     if ty == 'pvla': okamt = lab(amt) == 'vlasize'; step = 'the run-time size of int[n]'
                     if i0[1] != wantop or i0[2] != cls or i0[3] != ld[0][3] or not okamt: return 'expected %s.%s(loaded value, %s); got %s %s (%s, %s)' % (wantop, cls, step, i0[1], i0[2], lab(i0[3]), i0[4])
                     if st_[0][1] != ty or st_[0][2] != ld[0][2] or st_[0][3] != i0[5]: return 'the new value must be stored back to the operand (type %s); stored %s into %s as %s' % (ty, lab(st_[0][3]), lab(st_[0][2]), st_[0][1])
-                    want = ld[0][3] if post else i0[5]
-                    if res != want: return 'the value of the expression must be the %s value; got %s' % ('old' if post else 'new', lab(res))
+                    want = ld[0][3] if post else st_[0][4]
+                    if res != want: return 'the value of the expression must be the %s value%s; got %s' % ('old' if post else 'new', '' if post else ' as stored (what funcstore returns: a bit-field wraps at its width)', lab(res))
                     return None
                 cases.append(('incdec:%s%s,%s' % ('post' if post else 'pre', '++' if op == 'TINC' else '--', ty), build, judge))
     # ---- constants of every scalar kind (also nullptr_t: `nullptr;` is a valid expression statement)
@@ -876,7 +877,7 @@ def rule_exprflow(chk, prog, tier):
             st_ = [e_ for e_ in evs if e_[0] == 'store']
             if [e_ for e_ in evs if e_[0] == 'eval'] != [('eval', 'y')] or len(st_) != 1: return 'the right operand is evaluated once and stored once; events %s' % [e_[:2] for e_ in evs]
             if lab(st_[0][3]) != 'v:y' or lab(st_[0][2]) != 'a:x' or st_[0][1] != ty: return 'stored %s into %s as %s' % (lab(st_[0][3]), lab(st_[0][2]), st_[0][1])
-            if res != st_[0][3]: return 'the value of an assignment is the stored value; got %s' % lab(res)
+            if res != st_[0][4]: return 'the value of an assignment is the value as stored (what funcstore returns); got %s' % lab(res)
             return None
         cases.append(('assign:%s' % ty, build, judge))
     # ---- comma
